@@ -29,7 +29,13 @@ def make(gs, rng_seed):
     kind = gs["kind"]
     if kind == "struct":
         s = gs["spec"]
-        g = mg.make_grid(s)
+        if gs.get("via_location_change") and s["cls"] != "esri":
+            # history: built for the other data location, points/shape read, then switched
+            g = mg.make_grid(dict(s, location="POINTS" if s["location"] == "CELLS" else "CELLS"))
+            _ = (g.data_points, g.data_shape, g.data_size)
+            g.data_location = s["location"]
+        else:
+            g = mg.make_grid(s)
         ca = mg.coord_arrays(s)
         shape = mg.data_shape(s)
         coords = np.stack([c.reshape(shape) for c in ca], axis=-1)  # shape + (dim,)
@@ -73,7 +79,7 @@ def rand_grid(rnd, dim, allow_esri=True):
         s = mg.random_structured_spec(rnd, dim=dim, classes=classes, lens=(2, 3, 4, 5))
         if s["cls"] == "esri":
             s["dims"] = [rnd.choice([3, 4, 5]), rnd.choice([3, 4])]
-        return dict(kind="struct", spec=s, dim=len(s["dims"]))
+        return dict(kind="struct", spec=s, dim=len(s["dims"]), via_location_change=rnd.random() < 0.2)
     if r < 0.8 or dim != 2:
         return dict(kind="upoints", dim=dim, n=rnd.randint(dim + 4, 14), order=rnd.choice("CF"))
     return dict(kind="ucells", dim=2, nx=rnd.randint(3, 4), ny=rnd.randint(3, 4), location=rnd.choice(["CELLS", "CELLS", "POINTS"]), order=rnd.choice("CF"),
@@ -164,6 +170,7 @@ class C16(Property):
             o, (inp,) = slots.simple_link(sinfo, tinfo, adapters=[ada])
             payload = np.ma.array(values, mask=ms) if ms is not None else values
             o.push_data(payload, slots.T0)
+            deliver.out = o
             return inp.pull_data(slots.T0), inp
 
         out.count("pairs")
@@ -253,6 +260,31 @@ class C16(Property):
                         out.count("outside_hull_masked_checked")
                 checked += 1
         out.count("target_elements_checked", checked)
+        if spec["src"].get("via_location_change") or spec["tgt"].get("via_location_change"):
+            out.count("grids_with_changed_data_location")
+        if ms is None and spec["method"] == "nearest" and spec["seed"] % 3 == 0 and ns > 2:
+            # history: after plain data the same source delivers *masked* data although its metadata declares no mask:
+            # the adapter documents that it refuses this (its indices were computed for the full grid)
+            m2 = np.zeros(sshape, bool)
+            m2.flat[0] = True
+            try:
+                got_first, inp = deliver(vals.copy())
+                deliver.out.push_data(np.ma.array(vals.copy(), mask=m2), slots.t(10))
+                got3 = inp.pull_data(slots.t(10))
+                r3 = np.ma.getdata(got3.magnitude)[0].reshape(nt)
+                # if it is served nevertheless, the values must still be those of nearest *unmasked* sources
+                keep3 = ~m2.ravel()
+                d3 = np.linalg.norm(ct2[:, None, :] - cs2[None, keep3, :], axis=2)
+                sv3 = vals.reshape(ns)[keep3]
+                for e in range(nt):
+                    if mt is not None and mt.ravel()[e]:
+                        continue
+                    j = np.flatnonzero(sv3 == r3[e])
+                    if len(j) != 1 or d3[e, j[0]] > d3[e].min() + tol:
+                        out.viol("undeclared_mask_misplaces_values", f"masked data on a source without mask specification was regridded to wrong locations (target element {e})", spec=spec)
+                        return out
+            except fm.FinamDataError:
+                out.count("undeclared_masked_data_refused")
         # poison: values under the source mask must not influence unmasked results
         if ms is not None and ms.any():
             poisoned = vals.copy()
@@ -273,7 +305,7 @@ class C16(Property):
 
     def coverage_gaps(self, counters, tier):
         need = ["method_nearest", "method_linear", "target_elements_checked", "identity_between_layouts_checked", "inside_hull_checked",
-                "outside_hull_masked_checked", "outside_hull_filled_checked", "poison_runs", "dim_1", "dim_2", "dim_3",
+                "outside_hull_masked_checked", "outside_hull_filled_checked", "poison_runs", "grids_with_changed_data_location", "undeclared_masked_data_refused", "dim_1", "dim_2", "dim_3",
                 "src_struct_uniform", "src_struct_rect", "src_struct_esri", "src_upoints", "src_ucells", "src_ucells_mixed", "tgt_struct_uniform", "tgt_upoints", "tgt_ucells"]
         return [f"{k} never observed" for k in need if not counters.get(k)]
 
